@@ -268,6 +268,17 @@ def binop(it, op, a, b, node=None):
         raise Unsupported(f"{op} on sequences")
     if isinstance(a, (list, tuple)) and isinstance(b, (list, tuple)) and op == "Add":
         return type(a)(list(a) + list(b))
+    if isinstance(a, list) and isinstance(b, SymList) and op == "Add":
+        pre = [lift(force(x))[1] for x in a]
+        k = len(pre)
+
+        def getf(i, _pre=pre, _b=b, _k=k):
+            t = _b.elem(z3.simplify(i - _k))
+            for j in range(_k - 1, -1, -1):
+                t = z3.If(i == j, _pre[j], t)
+            return t
+
+        return SymList(z3.simplify(b.len_t + k), getf)
     ka, ta = _kind_term(a)
     kb, tb = _kind_term(b)
     if ka == "str" and kb == "str" and op == "Add":
@@ -819,6 +830,24 @@ def getitem(it, obj, idx, node=None):
         if isinstance(idx, slice):
             if idx.step is not None:
                 raise Unsupported("slice step")
+            if idx.start is None and isinstance(idx.stop, int) and idx.stop < 0:
+                # s[:-k] where s visibly ends in literal text of at least k characters: cut it structurally
+                from .laws import flatten
+                from .core import lit_value, strlit
+
+                parts = flatten(t)
+                k = -idx.stop
+                out = list(parts)
+                while k > 0 and out and lit_value(out[-1]) is not None:
+                    lv = lit_value(out[-1])
+                    if len(lv) <= k:
+                        k -= len(lv)
+                        out.pop()
+                    else:
+                        out[-1] = strlit(lv[:-k])
+                        k = 0
+                if k == 0:
+                    return mk("str", lb.concat(out) if out else strlit(""))
             lo = z3.IntVal(0) if idx.start is None else norm_index(_int_term(it, idx.start, node), ln)
             hi = ln if idx.stop is None else norm_index(_int_term(it, idx.stop, node), ln)
             hi = z3.simplify(z3.If(hi < lo, lo, hi))
@@ -895,6 +924,14 @@ def setitem(it, obj, idx, v, node=None):
         return
     if isinstance(obj, Row) and obj.cls.kind == "rec":
         obj.set_field(idx, v)
+        return
+    if isinstance(obj, SymList):
+        ti = _int_term(it, idx, node)
+        ln = obj.len_t
+        if not it.branch(z3.And(ti >= -ln, ti < ln), node):
+            it.raise_(IndexError, "list assignment index out of range", node=node)
+        ti = z3.simplify(z3.If(ti < 0, ln + ti, ti))
+        obj.with_item(ti, lift(force(v))[1])
         return
     if isinstance(obj, dict):
         if isinstance(idx, SV):
